@@ -278,10 +278,53 @@ impl World {
     }
 }
 
+/// probe for the index finding (not part of the stream): `nvh child crash idxprobe <dir> <k>`
+/// creates label L + index L.k, commits node 1 {k:1}, starts committing node 2 {k:2} and dies at
+/// I/O step k of that commit; `nvh child crash idxcheck <dir>` reopens and prints what
+/// `lookup_index(L,k,2)` and `lookup_internal_id(2)` say.
+fn idx_probe(args: &[String]) -> i32 {
+    let dir = PathBuf::from(&args[1]);
+    let ndb = dir.join("db.ndb");
+    let wal = dir.join("db.wal");
+    if args[0] == "idxprobe" {
+        let k: u64 = args[2].parse().unwrap_or(0);
+        verif_io::enable(false, Some(&dir));
+        let engine = GraphEngine::open(&ndb, &wal).unwrap();
+        let l = engine.get_or_create_label("L").unwrap();
+        engine.create_index("L", "k").unwrap();
+        let mut tx = engine.begin_write();
+        let n = tx.create_node(1, l).unwrap();
+        tx.set_node_property(n, "k".into(), PropertyValue::Int(1));
+        tx.commit().unwrap();
+        let mut tx = engine.begin_write();
+        let n = tx.create_node(2, l).unwrap();
+        tx.set_node_property(n, "k".into(), PropertyValue::Int(2));
+        verif_io::reset_counter();
+        verif_io::arm(verif_io::Mode::Abort, k);
+        let r = tx.commit();
+        println!("commit returned {:?} steps {}", r.is_ok(), steps_string());
+        0
+    } else {
+        let engine = GraphEngine::open(&ndb, &wal).unwrap();
+        let snap = engine.snapshot();
+        println!(
+            "lookup_index(L,k,2)={:?} lookup_index(L,k,1)={:?} node2={:?} nodes={}",
+            snap.lookup_index("L", "k", &PropertyValue::Int(2)),
+            snap.lookup_index("L", "k", &PropertyValue::Int(1)),
+            engine.lookup_internal_id(2),
+            engine.scan_i2e_records().len()
+        );
+        0
+    }
+}
+
 /// `nvh child crash <dir> <txs-so-far as n.e.p,...|-> <tokens...>`: prints `result|steps` per op
 fn child(args: &[String]) -> i32 {
     if args.len() < 2 {
         return 2;
+    }
+    if args[0] == "idxprobe" || args[0] == "idxcheck" {
+        return idx_probe(args);
     }
     let dir = PathBuf::from(&args[0]);
     let mut txs = Vec::new();
@@ -756,6 +799,25 @@ pub fn step_for(stream: &str, ws: &[&str]) -> String {
             }
             let steps: Vec<&str> = outs.iter().map(|o| o.steps.as_str()).collect();
             format!("{} | {}", join_results(&outs), steps.join(" ; "))
+        }
+        ["idx", k] => {
+            // witness of the index finding: see `idx_probe`
+            let dir = fresh_dir();
+            let exe = std::env::current_exe().unwrap();
+            let _ = Command::new(&exe).args(["child", "crash", "idxprobe"]).arg(&dir).arg(k)
+                .stdin(Stdio::null()).stdout(Stdio::null()).stderr(Stdio::null()).status();
+            let out = Command::new(&exe).args(["child", "crash", "idxcheck"]).arg(&dir)
+                .stdin(Stdio::null()).stderr(Stdio::null()).output();
+            let _ = std::fs::remove_dir_all(&dir);
+            match out {
+                Ok(o) => {
+                    let s = String::from_utf8_lossy(&o.stdout).to_string();
+                    let vis = if s.contains("lookup_index(L,k,2)=Some") { "indexed" } else { "absent" };
+                    let node = if s.contains("node2=Some") { "node" } else { "nonode" };
+                    format!("{} {}", vis, node)
+                }
+                Err(_) => "probe-failed".into(),
+            }
         }
         ["enum", idx, rest @ ..] => {
             let toks: Vec<String> = rest.iter().map(|s| s.to_string()).collect();
